@@ -41,14 +41,21 @@ def _lines(src: str) -> list[str]:
 
 def parse_source(src: str):
     ls = _lines(src)
-    for p in PRE:
-        if not ls or ls.pop(0) != p:
-            raise Unknown(f"preamble: expected {p!r}")
+    # the three statements of the preamble are independent of each other: any order is the same program
+    if len(ls) < len(PRE) or sorted(ls[: len(PRE)]) != sorted(PRE):
+        raise Unknown(f"preamble: expected {PRE!r} (in any order), found {ls[:len(PRE)]!r}")
+    del ls[: len(PRE)]
     if ls and ls[0] == "bit_reader = BitBuffer(stream, cls.cs.endian)":
         ls.pop(0)
-    for p in reversed(OUTRO):
-        if not ls or ls.pop() != p:
-            raise Unknown(f"outro: expected {p!r}")
+    # outro: `<v> = type.__call__(cls, **r)`, then `<v>._sizes = s` and `<v>._values = r` in either order, then `return <v>`
+    if len(ls) < 4:
+        raise Unknown("outro: too short")
+    tail = ls[-4:]
+    m = re.fullmatch(r"(\w+) = type\.__call__\(cls, \*\*r\)", tail[0])
+    if not m or m.group(1) in ("r", "s", "o", "cls", "stream", "context") or tail[3] != f"return {m.group(1)}" \
+            or sorted(tail[1:3]) != sorted([f"{m.group(1)}._sizes = s", f"{m.group(1)}._values = r"]):
+        raise Unknown(f"outro: expected {OUTRO!r} (the two attribute assignments in either order, any local name), found {tail!r}")
+    del ls[-4:]
     plan = []
     i = 0
     while i < len(ls):
